@@ -81,6 +81,43 @@ def self_mut_result(body, env):
     return env["self.0"]
 
 
+EFFT = "anstyle::effect::Effects"
+
+
+def eff_val(name):
+    """A symbolic Effects value: the newtype around the 16-bit symbol `name`."""
+    return ("ctor", EFFT, ("sym", name))
+
+
+def eff_bits(v):
+    if isinstance(v, tuple) and v and v[0] == "ctor" and len(v) == 3:
+        return v[2]
+    raise Unrecognised(f"an Effects value was expected, found {str(v)[:80]}")
+
+
+def run_fn(facts, path, args, atoms=None):
+    """Abstractly evaluate a function of the anstyle crate (its callees inlined): (result, final values of the parameters)."""
+    import abseval
+    ev = abseval.Evaluator(facts, "anstyle", atoms or {})
+    fin = []
+    r = ev.call_fn("anstyle", path, list(args), final=fin)
+    return r, fin
+
+
+def eff_law(facts, rep, rule, b, args, syms, pick, want, key, text):
+    """One Effects-valued function against a bitwise law, decided for all inputs (lib/bits.py)."""
+    import bits as bv
+    ok, why = False, ""
+    try:
+        r, fin = run_fn(facts, b["path"], args)
+        t = eff_bits(pick(r, fin))
+        ok = bv.same(t, want, syms)
+        why = "" if ok else f"computed {str(t)[:120]}"
+    except Unrecognised as ex:
+        why = f"not evaluable: {ex}"
+    rep.check(ok, rule, b["path"], key, f"{text} {why}", loc(b))
+
+
 THOROUGH_CONFIGS = ["anstyle-nostd"]
 
 
@@ -122,8 +159,9 @@ def rule_bitwise(facts, rep):
     for meth, want, law in (("insert", A | B, "a|b (union)"), ("remove", A & ~B & MASK, "a&!b (difference)")):
         b = facts.body("anstyle", E + meth)
         rep.fn(b["path"])
-        got = self_mut_result(b, env)
-        rep.check(got == want, "bitwise", b["path"], f"per-bit:{law}", f"truth table {got:04b}, expected {want:04b}", loc(b))
+        fn = (lambda a, b_: a | b_) if meth == "insert" else (lambda a, b_: a & ~b_)
+        eff_law(facts, rep, "bitwise", b, [eff_val("a"), eff_val("b")], ["a", "b"], lambda r, fin: r, fn, f"per-bit:{law}",
+                f"{meth}(a, b) is {law} for all a, b (abstract evaluation to a bit-vector term, compared on the all-0/all-1 assignments)")
         rep.count(4)
     # contains: (other & self) == other   ⇔ per bit b ⇒ a
     b = facts.body("anstyle", E + "contains")
@@ -148,19 +186,21 @@ def rule_bitwise(facts, rep):
     rep.check(ok, "bitwise", b["path"], "per-bit:a==0", "is_plain iff no bit set", loc(b))
     # new / clear: the empty set
     n = facts.body("anstyle", E + "new")
-    rep.check(hir.is_def(ac.single_expr(n["hir"]), "Effects::PLAIN"), "bitwise", n["path"], "new-is-empty", "", loc(n))
+    eff_law(facts, rep, "bitwise", n, [], [], lambda r, fin: r, lambda: 0, "new-is-empty", "Effects::new() has no bit set")
     c = facts.body("anstyle", E + "clear")
-    ce = ac.single_expr(c["hir"])
-    rep.check(hir.is_call(ce, E + "new") or hir.is_def(ce, "Effects::PLAIN"), "bitwise", c["path"], "clear-is-empty", "", loc(c))
+    eff_law(facts, rep, "bitwise", c, [eff_val("a")], ["a"], lambda r, fin: r, lambda a: 0, "clear-is-empty", "clear(a) has no bit set")
     # set: if enable { insert } else { remove }
     s = facts.body("anstyle", E + "set")
-    e = ac.single_expr(s["hir"])
-    ok = False
-    if e.get("k") == "if" and hir.is_local(e["c"], "enable") and "e" in e:
-        t, f = ac.single_expr(e["t"]), ac.single_expr(e["e"])
-        ok = (hir.is_call(t, E + "insert") and hir.is_call(f, E + "remove")
-              and all([hir.local_name(x) for x in c_["args"]] == ["self", "other"] for c_ in (t, f)))
-    rep.check(ok, "bitwise", s["path"], "ite(enable,insert,remove)", "", loc(s))
+    import bits as bv
+    ok, why = True, ""
+    try:
+        for enable, fn in ((True, lambda a, b_: a | b_), (False, lambda a, b_: a & ~b_)):
+            r, _ = run_fn(facts, s["path"], [eff_val("a"), eff_val("b"), ("bool", enable)])
+            if not bv.same(eff_bits(r), fn, ["a", "b"]):
+                ok, why = False, f"set(a, b, {str(enable).lower()}) computes {str(eff_bits(r))[:100]}"
+    except Unrecognised as ex:
+        ok, why = False, f"not evaluable: {ex}"
+    rep.check(ok, "bitwise", s["path"], "ite(enable,insert,remove)", f"set(a, b, true) = a|b and set(a, b, false) = a&!b for all a, b {why}", loc(s))
     for x in (n, c, s):
         rep.fn(x["path"])
 
@@ -171,20 +211,16 @@ def rule_operators(facts, rep):
         rep.fn(b["path"])
         return b
 
-    EFFT = "anstyle::effect::Effects"
     for tr, meth, target in (("core::ops::bit::BitOr", "bitor", "insert"), ("core::ops::arith::Sub", "sub", "remove")):
         b = body(f"<{EFFT} as {tr}>::{meth}")
-        e = ac.single_expr(b["hir"])
-        ok = hir.is_call(e, E + target) and hir.is_local(e["args"][0], "self") and hir.is_local(e["args"][1], b["params"][1]["name"])
-        rep.check(ok, "operators", b["path"], f"is-{target}", f"`{meth}` on Effects is {target}", loc(b))
+        fn = (lambda a, b_: a | b_) if target == "insert" else (lambda a, b_: a & ~b_)
+        eff_law(facts, rep, "operators", b, [eff_val("a"), eff_val("b")], ["a", "b"], lambda r, fin: r, fn, f"is-{target}",
+                f"`{meth}` on Effects is {target}: {'a|b' if target == 'insert' else 'a&!b'} for all a, b")
     for tr, meth, target in (("core::ops::bit::BitOrAssign", "bitor_assign", "insert"), ("core::ops::arith::SubAssign", "sub_assign", "remove")):
         b = body(f"<{EFFT} as {tr}>::{meth}")
-        st = hir.stmts_of(b["hir"])
-        ok = False
-        if len(st) == 1 and hir.simp(st[0]).get("k") == "assign" and hir.is_local(hir.simp(st[0])["l"], "self"):
-            r = hir.simp(hir.simp(st[0])["r"])
-            ok = hir.is_call(r, E + target) and hir.is_local(r["args"][0], "self") and hir.is_local(r["args"][1], b["params"][1]["name"])
-        rep.check(ok, "operators", b["path"], f"is-{target}", f"`{meth}` on Effects is *self = self.{target}(other)", loc(b))
+        fn = (lambda a, b_: a | b_) if target == "insert" else (lambda a, b_: a & ~b_)
+        eff_law(facts, rep, "operators", b, [eff_val("a"), eff_val("b")], ["a", "b"], lambda r, fin: fin[0], fn, f"is-{target}",
+                f"`{meth}` on Effects leaves {'a|b' if target == 'insert' else 'a&!b'} in *self for all a, b")
     STY = "anstyle::style::Style"
     # Style (op) Effects: decided by abstract evaluation on a record value — the result differs from `self` in `effects` only,
     # and there it is insert / remove of the operand (`|=`, `.insert()`, the `effects()` setter are all accepted spellings)
@@ -193,29 +229,19 @@ def rule_operators(facts, rep):
                          (f"core::ops::bit::BitOrAssign<{EFFT}>", "bitor_assign", "BitOrAssign"), (f"core::ops::arith::SubAssign<{EFFT}>", "sub_assign", "SubAssign")):
         b = body(f"<{STY} as {tr}>::{meth}")
         tag = "ins" if op == "BitOrAssign" else "rem"
-        atoms = {E + "insert": lambda a: ("ins", a[0], a[1]), E + "remove": lambda a: ("rem", a[0], a[1]),
-                 f"<{EFFT} as core::ops::bit::BitOrAssign>::bitor_assign": lambda a: ("ins", a[0], a[1]),
-                 f"<{EFFT} as core::ops::arith::SubAssign>::sub_assign": lambda a: ("rem", a[0], a[1]),
-                 f"<{EFFT} as core::ops::bit::BitOr>::bitor": lambda a: ("ins", a[0], a[1]),
-                 f"<{EFFT} as core::ops::arith::Sub>::sub": lambda a: ("rem", a[0], a[1])}
-        ev = abseval.Evaluator(facts, "anstyle", atoms)
-        env = abseval.Env()
-        start = {"fg": ("sym", "fg"), "bg": ("sym", "bg"), "underline": ("sym", "ul"), "effects": ("sym", "E")}
-        env[b["params"][0]["name"]] = ("rec", dict(start))
-        env[b["params"][1]["name"]] = ("sym", "rhs")
+        import bits as bv
+        start = {"fg": ("sym", "fg"), "bg": ("sym", "bg"), "underline": ("sym", "ul"), "effects": eff_val("a")}
         ok, why = False, ""
         try:
-            try:
-                r = ev.ev(b["hir"], env)
-            except abseval.Return as rt:
-                r = rt.v
-            res = r if meth in ("bitor", "sub") else env[b["params"][0]["name"]]
-            want = dict(start, effects=(tag, ("sym", "E"), ("sym", "rhs")))
-            ok = res == ("rec", want)
-            why = f"result {res}"
+            r, fin = run_fn(facts, b["path"], [("rec", dict(start)), eff_val("b")])
+            res = r if meth in ("bitor", "sub") else fin[0]
+            fn = (lambda a, b_: a | b_) if tag == "ins" else (lambda a, b_: a & ~b_)
+            ok = res[0] == "rec" and set(res[1]) == set(start) and all(res[1][f] == start[f] for f in ("fg", "bg", "underline")) \
+                and bv.same(eff_bits(res[1]["effects"]), fn, ["a", "b"])
+            why = "" if ok else f"result {str(res)[:160]}"
         except Unrecognised as ex:
             why = str(ex)
-        rep.check(ok, "operators", b["path"], f"effects-{op}-only", f"Style {meth} touches `effects` only, through Effects' {'insert' if tag == 'ins' else 'remove'}: {why[:160]}", loc(b))
+        rep.check(ok, "operators", b["path"], f"effects-{op}-only", f"Style {meth} leaves the colours alone and makes effects {'a|b' if tag == 'ins' else 'a&!b'} for all a, b: {why[:160]}", loc(b))
     # PartialEq<Effects> for Style: *self == Style::from(*other) ; From<Effects>: Style::new().effects(e)
     b = body(f"<{STY} as core::cmp::PartialEq<{EFFT}>>::eq")
     # style == effects exactly when the style has no colours and its effects are those effects: 16 cases by abstract evaluation
@@ -325,11 +351,15 @@ def rule_wiring(facts, rep):
     for setter, field in (("fg_color", "fg"), ("bg_color", "bg"), ("underline_color", "underline"), ("effects", "effects")):
         b = facts.body("anstyle", S + setter)
         rep.fn(b["path"])
-        s = [hir.simp(x) for x in hir.stmts_of(b["hir"])]
-        param = b["params"][1]["name"]
-        ok = (len(s) == 2 and s[0].get("k") == "assign" and hir.place_str(s[0]["l"]) == f"self.{field}" and hir.is_local(s[0]["r"], param)
-              and hir.is_local(s[1], "self"))
-        rep.check(ok, "wiring", b["path"], f"stores-{field}-only", f"`{setter}` must be `self.{field} = {param}; self`", loc(b))
+        start = {"fg": ("sym", "fg"), "bg": ("sym", "bg"), "underline": ("sym", "ul"), "effects": ("sym", "eff")}
+        ok, why = False, ""
+        try:
+            r, _ = run_fn(facts, b["path"], [("rec", dict(start)), ("sym", "new")])
+            ok = r == ("rec", dict(start, **{field: ("sym", "new")}))
+            why = "" if ok else f"result {str(r)[:160]}"
+        except Unrecognised as ex:
+            why = f"not evaluable: {ex}"
+        rep.check(ok, "wiring", b["path"], f"stores-{field}-only", f"`{setter}(v)` returns self with {field} = v and the other three fields unchanged {why}", loc(b))
     for getter, field in (("get_fg_color", "fg"), ("get_bg_color", "bg"), ("get_underline_color", "underline"), ("get_effects", "effects")):
         b = facts.body("anstyle", S + getter)
         rep.fn(b["path"])
@@ -338,12 +368,18 @@ def rule_wiring(facts, rep):
                         ("invert", "INVERT"), ("hidden", "HIDDEN"), ("strikethrough", "STRIKETHROUGH")):
         b = facts.body("anstyle", S + meth)
         rep.fn(b["path"])
-        s = [hir.simp(x) for x in hir.stmts_of(b["hir"])]
-        ok = False
-        if len(s) == 2 and s[0].get("k") == "assign" and hir.place_str(s[0]["l"]) == "self.effects" and hir.is_local(s[1], "self"):
-            r = hir.simp(s[0]["r"])
-            ok = hir.is_call(r, E + "insert") and hir.place_str(r["args"][0]) == "self.effects" and hir.is_def(r["args"][1], "Effects::" + const)
-        rep.check(ok, "wiring", b["path"], f"inserts-{const}", f"`{meth}()` must equal inserting Effects::{const}", loc(b))
+        import bits as bv
+        start = {"fg": ("sym", "fg"), "bg": ("sym", "bg"), "underline": ("sym", "ul"), "effects": eff_val("a")}
+        bit = {n_: v for n_, v, _ in ac.effect_consts(facts)}.get(const)
+        ok, why = False, ""
+        try:
+            r, _ = run_fn(facts, b["path"], [("rec", dict(start))])
+            ok = r[0] == "rec" and set(r[1]) == set(start) and all(r[1][f] == start[f] for f in ("fg", "bg", "underline")) \
+                and isinstance(bit, int) and bv.same(eff_bits(r[1]["effects"]), lambda a, bit=bit: a | bit, ["a"])
+            why = "" if ok else f"result {str(r)[:160]}"
+        except Unrecognised as ex:
+            why = f"not evaluable: {ex}"
+        rep.check(ok, "wiring", b["path"], f"inserts-{const}", f"`{meth}()` leaves the colours alone and makes effects a|{const} for all a {why}", loc(b))
     n = facts.body("anstyle", S + "new")
     e = ac.single_expr(n["hir"])
     ok = e.get("k") == "struct"
@@ -376,63 +412,62 @@ def rule_colour_tables(facts, rep):
     names, discr, it = ac.ansi_variants(facts)
     rep.check(names == sgr.ANSI16 and discr == list(range(16)), "colour-tables", ac.ANSI, "variants-in-palette-order", f"{names}", f"{it['file']}:{it['ln']}")
 
-    def ctor_index(e):
-        e = hir.simp(e)
-        if e.get("k") == "call" and e.get("ctor") in ("anstyle::color::Ansi256Color", "Self") or (e.get("k") == "call" and "Ansi256Color" in e.get("ctor", "")):
-            return hir.lit_val(e["args"][0])
-        return None
+    # every table below is the function's value on each element of its (finite) domain, by abstract evaluation: a match, a const
+    # table, a cast of the discriminant, an arithmetic expression all denote the same table
+    def value_of(path, args):
+        try:
+            return run_fn(facts, path, args)[0]
+        except Unrecognised as ex:
+            return ("not-evaluable", str(ex)[:120])
+
+    def variant(n):
+        return ("enum", ac.ANSI + "::" + n)
 
     fa = facts.body("anstyle", "anstyle::color::Ansi256Color::from_ansi")
     rep.fn(fa["path"])
-    t = ac.variant_table(ac.single_expr(fa["hir"]), ac.ANSI, ctor_index)
+    t = {}
+    for n in sgr.ANSI16:
+        v = value_of(fa["path"], [variant(n)])
+        t[n] = v[2][1] if v[0] == "ctor" and len(v) == 3 and v[2][0] == "int" else v
     rep.check(t == {n: i for i, n in enumerate(sgr.ANSI16)}, "colour-tables", fa["path"], "variant-i↦i", f"{t}", loc(fa))
     rep.count(16)
     ia = facts.body("anstyle", "anstyle::color::Ansi256Color::into_ansi")
     rep.fn(ia["path"])
-    m = ac.single_expr(ia["hir"])
-    got = {}
-    default_none = False
-    sc = hir.simp(m["scrut"])
-    ok_scrut = hir.is_call(sc, "anstyle::color::Ansi256Color::index") or hir.place_str(sc) == "self.0"
-    for a in m["arms"]:
-        ints = hir.pat_ints(a["pat"])
-        v = hir.simp(a["body"])
-        if ints is None:
-            default_none = hir.is_def(v, "Option::None")
-        elif v.get("ctor", "").endswith("Option::Some"):
-            for i in ints:
-                got[i] = hir.last_seg(hir.def_path(v["args"][0]))
-    rep.check(ok_scrut and default_none and got == {i: n for i, n in enumerate(sgr.ANSI16)}, "colour-tables", ia["path"], "i↦variant-i-else-None",
-              f"{got}", loc(ia))
-    rep.count(17)
+    got, others = {}, {}
+    for i in range(256):
+        v = value_of(ia["path"], [("ctor", "anstyle::color::Ansi256Color", ("int", i))])
+        if v[0] == "some" and v[1][0] == "enum":
+            got[i] = v[1][1].split("::")[-1]
+        elif v != ("none",):
+            others[i] = v
+    rep.check(not others and got == {i: n for i, n in enumerate(sgr.ANSI16)}, "colour-tables", ia["path"], "i↦variant-i-else-None",
+              f"evaluated for all 256 indices: Some for {sorted(got)[:20]}, not decided: {dict(list(others.items())[:2])}", loc(ia))
+    rep.count(256)
     rep.check(all(got.get(t.get(n)) == n for n in sgr.ANSI16), "colour-tables", "anstyle::color", "from_ansi∘into_ansi=id",
               "the two tables are mutually inverse on 0..=15", "")
     # bright(yes)
     br = facts.body("anstyle", ac.ANSI + "::bright")
     rep.fn(br["path"])
-    e = ac.single_expr(br["hir"])
-    ok = e.get("k") == "if" and hir.is_local(e["c"], "yes") and "e" in e
-
-    def val(x):
-        x = hir.simp(x)
-        if hir.is_local(x, "self"):
-            return "self"
-        return hir.last_seg(hir.def_path(x))
-
-    if ok:
-        yes = ac.variant_table(ac.single_expr(e["t"]), ac.ANSI, val)
-        no = ac.variant_table(ac.single_expr(e["e"]), ac.ANSI, val)
-        res_yes = {n: (n if v == "self" else v) for n, v in yes.items()}
-        res_no = {n: (n if v == "self" else v) for n, v in no.items()}
-        want_yes = {n: ("Bright" + n if not n.startswith("Bright") else n) for n in sgr.ANSI16}
-        want_no = {n: (n[len("Bright"):] if n.startswith("Bright") else n) for n in sgr.ANSI16}
-        ok = res_yes == want_yes and res_no == want_no
-        rep.count(32)
-    rep.check(ok, "colour-tables", br["path"], "projection-preserving-hue", "bright(true)/bright(false) keep the hue and are idempotent", loc(br))
+    res = {}
+    for yes in (True, False):
+        for n in sgr.ANSI16:
+            v = value_of(br["path"], [variant(n), ("bool", yes)])
+            res[(n, yes)] = v[1].split("::")[-1] if v[0] == "enum" else v
+    want = {}
+    for n in sgr.ANSI16:
+        want[(n, True)] = "Bright" + n if not n.startswith("Bright") else n
+        want[(n, False)] = n[len("Bright"):] if n.startswith("Bright") else n
+    rep.count(32)
+    bad = {k: v for k, v in res.items() if want[k] != v}
+    rep.check(not bad, "colour-tables", br["path"], "projection-preserving-hue",
+              f"bright(true)/bright(false) keep the hue and are idempotent {dict(list(bad.items())[:3]) if bad else ''}", loc(br))
     ib = facts.body("anstyle", ac.ANSI + "::is_bright")
     rep.fn(ib["path"])
-    t = ac.variant_table(ac.single_expr(ib["hir"]), ac.ANSI, hir.lit_val)
-    rep.check(t == {n: n.startswith("Bright") for n in sgr.ANSI16}, "colour-tables", ib["path"], "upper-eight", f"{t}", loc(ib))
+    t2 = {}
+    for n in sgr.ANSI16:
+        v = value_of(ib["path"], [variant(n)])
+        t2[n] = v[1] if v[0] == "bool" else v
+    rep.check(t2 == {n: n.startswith("Bright") for n in sgr.ANSI16}, "colour-tables", ib["path"], "upper-eight", f"{t2}", loc(ib))
     rep.count(16)
     # From<AnsiColor> for Ansi256Color is from_ansi
     f = facts.body("anstyle", "<anstyle::color::Ansi256Color as core::convert::From<anstyle::color::AnsiColor>>::from")
